@@ -28,6 +28,33 @@ class MapV(dict):
     __hash__ = object.__hash__
 
 
+class EntryV:
+    """map.entry(k)"""
+    def __init__(self, m, k):
+        self.m, self.k = m, k
+
+
+class LogList(list):
+    """a list that reports every push to a shared event log"""
+    def __init__(self, items, log, name):
+        super().__init__(items)
+        self.log, self.name = log, name
+
+    def append(self, v):
+        self.log.append((self.name, v))
+        super().append(v)
+
+
+class LogMap(MapV):
+    def __init__(self, items, log, name):
+        super().__init__(items)
+        self.log, self.name = log, name
+
+    def __setitem__(self, k, v):
+        self.log.append((self.name, k, v))
+        super().__setitem__(k, v)
+
+
 class RecInterp(itereval.IterInterp):
     def __init__(self, ast, path, self_rec, scripted=None):
         super().__init__()
@@ -55,6 +82,41 @@ class RecInterp(itereval.IterInterp):
                 if name in self.fns and len(self.fns[name]) == 1:
                     return self.call_method(self.fns[name][0], args)
                 raise Unanalysable(f"self.{name}() is not a function of {self.path}")
+            if isinstance(recv, Opt) and e["method"] in ("get_or_insert", "get_or_insert_with", "insert", "take", "replace"):
+                # methods that change the Option in place: the receiver is a place and gets the new value
+                args = [self.eval(a, env) for a in e["args"]]
+                m = e["method"]
+                place = strip_paren(e["receiver"])
+                while place.get("t") == "Reference":
+                    place = strip_paren(place["expr"])
+                if m in ("get_or_insert", "get_or_insert_with"):
+                    if recv.some:
+                        return recv.v
+                    v = args[0] if m == "get_or_insert" else self.apply(args[0], [])
+                    self.assign_place(place, Some(v), env, e)
+                    return v
+                if m == "insert":
+                    self.assign_place(place, Some(args[0]), env, e)
+                    return args[0]
+                if m == "take":
+                    self.assign_place(place, NONE, env, e)
+                    return recv
+                if m == "replace":
+                    self.assign_place(place, Some(args[0]), env, e)
+                    return recv
+            if isinstance(recv, list) and e["method"] in ("get", "first", "last", "skip", "take"):
+                args = [self.eval(a, env) for a in e["args"]]
+                m = e["method"]
+                if m == "get" and len(args) == 1 and isinstance(args[0], int):
+                    return Some(recv[args[0]]) if 0 <= args[0] < len(recv) else NONE
+                if m == "first":
+                    return Some(recv[0]) if recv else NONE
+                if m == "last":
+                    return Some(recv[-1]) if recv else NONE
+                if m == "skip" and isinstance(args[0], int):
+                    return recv[args[0]:]
+                if m == "take" and isinstance(args[0], int):
+                    return recv[:args[0]]
             if isinstance(recv, Opt) and e["method"] in ("is_none", "is_some", "unwrap", "is_some_and", "is_none_or", "map_or", "unwrap_or"):
                 args = [self.eval(a, env) for a in e["args"]]
                 m = e["method"]
@@ -115,6 +177,13 @@ class RecInterp(itereval.IterInterp):
     def call(self, name, targs, args, node):
         if name == "Some" and len(args) == 1:
             return Some(args[0])
+        base = name.split("::<")[0]
+        if base.split("::")[-1] in ("new", "with_capacity", "default") and len(base.split("::")) >= 2:
+            ty = base.split("::")[-2]
+            if ty in ("Vec", "SmallVec", "VecDeque"):
+                return []
+            if ty in ("HashMap", "HashSet", "BTreeMap", "BTreeSet"):
+                return MapV()
         last = name.split("::<")[0].split("::")[-1]
         if "::" in name and last[:1].isupper():
             return itereval.Ctor(name.split("::<")[0], args)         # an enum constructor
@@ -148,6 +217,14 @@ class RecInterp(itereval.IterInterp):
         return super().equal(a, b, node)
 
     def method(self, recv, name, targs, args, node):
+        if isinstance(recv, MapV) and name == "entry" and len(args) == 1:
+            return EntryV(recv, args[0])
+        if isinstance(recv, EntryV):
+            if name in ("or_default", "or_insert", "or_insert_with"):
+                if recv.k not in recv.m:
+                    recv.m[recv.k] = MapV() if name == "or_default" else args[0] if name == "or_insert" else self.apply(args[0], [])
+                return recv.m[recv.k]
+            raise Unanalysable(f"entry .{name}()")
         if isinstance(recv, MapV):
             if name in ("remove", "insert", "clear", "get", "contains_key", "contains", "len", "is_empty", "retain"):
                 if name == "remove":
